@@ -342,7 +342,8 @@ def cases(draw):
     target = st.integers(-1, len(U) - 1)
     nq = len(roots) + len(U)
     style = draw(st.sampled_from(["defects", "defects", "random", "identity", "cycle"] +
-                                 (["eom_and_stall"] * 2 if nroots >= 2 and variant in (0, 2) else [])))
+                                 (["eom_and_stall"] * 2 if nroots >= 2 and variant in (0, 2) else []) +
+                                 (["stall_and_eom"] * 2 if nroots >= 2 and variant in (0, 2) else [])))
     if style == "random":
         tab = [[draw(target) for _ in range(reps)] for _ in range(nq)]
     else:
@@ -359,6 +360,13 @@ def cases(draw):
                 tab[0][rep] = -1
                 # an OID inside the FIRST root: larger than the first requested root, smaller than the later one
                 tab[later][rep] = 1 if rep % 2 == 0 or reps == 1 else 0
+        elif style == "stall_and_eom":
+            # the mirror image: in ONE response the FIRST column does not advance (it answers an OID in front of its root)
+            # while a later column answers endOfMibView -- what is left of that row is incomplete
+            later = draw(st.integers(1, nroots - 1))
+            for rep in range(reps):
+                tab[0][rep] = 0
+                tab[later][rep] = -1
         elif style == "identity":
             q = draw(st.integers(len(roots), nq - 1))
             for rep in range(reps):
